@@ -246,29 +246,6 @@ __ymcw_get_mday(dt_ymcw_t that)
 	return res;
 }
 
-static int
-__ymcw_get_bday(dt_ymcw_t that, dt_bizda_param_t bp)
-{
-	dt_dow_t wd01;
-	int res;
-
-	switch (that.w) {
-	case DT_SUNDAY:
-	case DT_SATURDAY:
-		return -1;
-	default:
-		break;
-	}
-	if (bp.ab != BIZDA_AFTER || bp.ref != BIZDA_ULTIMO) {
-		/* no support yet */
-		return -1;
-	}
-
-	/* weekday the month started with */
-	wd01 = __get_m01_wday(that.y, that.m);
-	res = (signed int)(that.w - wd01) + DUWW_BDAYS_P_WEEK * (that.c) + 1;
-	return res;
-}
 #endif	/* YMCW_ASPECT_GETTERS_ */
 
 
